@@ -223,6 +223,12 @@ pub fn generate(seed: u64, map: bool) -> HostedScenario {
     let mut base = dltask::generate(seed, map);
     // The hosted runs issue their own local writes (`map_ops` below, racing with the notifications).
     base.map_ops.clear();
+    // The hosted value downlink of the harness agent is a downlink of i32: no event without a value.
+    for (i, n) in base.script.iter_mut().enumerate() {
+        if matches!(n, N::Val(v) if *v == dltask::NONE_VALUE) {
+            *n = N::Val(7_000_000 + i as i32);
+        }
+    }
     let mut rng = Rng::new(seed).sub("hosted");
     let mut map_ops = vec![];
     let mut next = 5000;
